@@ -17,8 +17,8 @@ from .c03 import overflows
 ID = "C04"
 LEVEL = "exploration"
 RULE = ("Single-section tables in the default body font whose rows have an unambiguous height (calibrated filler, "
-        "every cell well inside a k-line band), nrow 2-30, all header / footnote / source reservations, group-key "
-        "sequences with 1-3 levels over a small alphabet (runs of every length, keys may return non-adjacently), "
+        "every cell well inside a k-line band; unequal column widths and missing (null) cells in 40% of the tables), nrow 2-30, all header / footnote / source reservations, group-key "
+        "sequences with 1-3 levels over a small alphabet (runs of every length, keys may return non-adjacently, '-----' divider runs in 30% of the grouped tables), "
         "plain / page_by (new_page on/off, pageby_row column/first_row) / subline_by. Exhaustive part: all height "
         "vectors in {1,2,3}^n x all group-change patterns of length n (quick: n<=4 complete + every 4th of n=5; thorough: n<=7 complete, 167,961 cases), over a "
         "rotating set of (nrow, reservation, strategy). Oracle from the page membership of coordinate-tagged "
@@ -36,7 +36,7 @@ ALPHA = ["v0", "v1", "v2"]
 
 
 @st.composite
-def _keys(draw, n, levels, tag):
+def _keys(draw, n, levels, tag, dividers=False):
     """Arbitrary key sequence: runs of random length, values from a small alphabet (keys may return)."""
     cols = [[None] * n for _ in range(levels)]
     for lvl in range(levels):
@@ -44,9 +44,17 @@ def _keys(draw, n, levels, tag):
         while pos < n:
             r = draw(st.integers(1, 6))
             v = f"{tag}{lvl}:{draw(st.sampled_from(ALPHA))}"
+            if dividers and draw(st.integers(0, 9)) < 2:
+                v = "-----"
             for i in range(pos, min(n, pos + r)):
                 cols[lvl][i] = v
             pos += r
+    if dividers:
+        # a divider group has no headings at all: below a divider the inner levels are dividers too
+        for i in range(n):
+            for lvl in range(1, levels):
+                if cols[lvl - 1][i] == "-----":
+                    cols[lvl][i] = "-----"
     return cols
 
 
@@ -56,7 +64,7 @@ def _case(draw):
     n = draw(st.integers(1, 36))
     heights = [draw(st.sampled_from([1, 1, 1, 2, 3])) if draw(st.integers(0, 9)) < 4 else 1 for _ in range(n)]
     levels = draw(st.integers(1, 3)) if "page_by" in strat else 0
-    groups = draw(_keys(n, levels, "@G")) if levels else None
+    groups = draw(_keys(n, levels, "@G", dividers=draw(st.integers(0, 9)) < 3)) if levels else None
     subline = None
     if strat.startswith("subline"):
         k = draw(st.sampled_from([1, 1, 2, 3]))
@@ -69,7 +77,10 @@ def _case(draw):
     new_page = strat == "page_by_new"
     ndata = draw(st.integers(1, 3))
     rel = [draw(st.sampled_from([1, 1, 2, 3])) for _ in range(ndata)] if (ndata >= 2 and draw(st.integers(0, 9)) < 4) else None
-    rec = pgen.make_table(heights, groups, ndata=ndata, rel_widths=rel, subline=subline, page_by_levels=levels,
+    nulls = None
+    if ndata >= 2 and draw(st.integers(0, 9)) < 4:
+        nulls = {f"{i},{draw(st.integers(0, ndata - 1))}" for i in range(n) if draw(st.integers(0, 9)) < 3}
+    rec = pgen.make_table(heights, groups, ndata=ndata, rel_widths=rel, null_cells=nulls, subline=subline, page_by_levels=levels,
                           new_page=new_page, pageby_row=draw(st.sampled_from([None, "column", "first_row"])) if new_page else None,
                           pageby_header=draw(st.sampled_from([None, True, False])), header=header, footnote=fn, source=src,
                           nrow=draw(st.integers(2, 30)), placements=pl, title=draw(st.booleans()),
@@ -92,6 +103,8 @@ CONFIGS = [  # (strategy, header, footnote, source, nrow)
     ("page_by", "explicit", None, None, 5), ("page_by", "none", None, "para", 6), ("page_by_new", "explicit", "table", None, 5),
     ("page_by_new_first_row", "explicit", None, None, 5), ("subline", "explicit", None, None, 5), ("subline", "default", "table", "table", 8),
     ("plain", "default", None, None, 3), ("page_by", "multi", "table", "table", 9), ("page_by", "explicit", None, None, 3),
+    # two data columns of unequal width (1:3) next to a page_by column that stays in the table; a null cell in the other column
+    ("page_by_new_w", "explicit", None, None, 6), ("plain_w", "none", None, None, 5),
 ]
 
 
@@ -121,14 +134,20 @@ def exhaustive_case(hv, pattern, cfg):
     groups = subline = None
     levels = 0
     new_page, pbr = False, None
+    wide = strat.endswith("_w")
+    if wide:
+        strat = strat[:-2]
     if strat.startswith("page_by"):
         groups, levels = [[f"@G0:v{v}" for v in vals]], 1
         new_page = "new" in strat
         pbr = "first_row" if strat.endswith("first_row") else None
     if strat == "subline":
         subline = [f"@B0:v{v}" for v in vals]
-    rec = pgen.make_table(list(hv), groups, ndata=1, subline=subline, page_by_levels=levels, new_page=new_page, pageby_row=pbr,
-                          header=header, footnote=fn, source=src, nrow=nrow)
+    extra = {}
+    if wide:
+        extra = dict(rel_widths=[1, 3], null_cells={f"{i},0" for i in range(0, n, 2)})
+    rec = pgen.make_table(list(hv), groups, ndata=2 if wide else 1, subline=subline, page_by_levels=levels, new_page=new_page, pageby_row=pbr,
+                          header=header, footnote=fn, source=src, nrow=nrow, **extra)
     rec["strategy"] = strat
     rec["prefix"] = max(1, n - 1) if n < 7 else 0
     return rec
